@@ -963,15 +963,14 @@ class Context:
                 # The result should be a function expression wrapped in a program
                 # We need to extract the function from the bytecode
                 # Execute the expression to get the function object
-                vm = self._nested_vm()
-                result = vm.run(bytecode_module)
+                result = self._run_nested(bytecode_module)
 
                 if isinstance(result, JSFunction):
                     return result
                 else:
                     # Fallback: return a simple empty function
                     return JSFunction("anonymous", params, bytes(), {})
-            except (TimeLimitError, MemoryLimitError):
+            except (TimeLimitError, MemoryLimitError, RecursionError):
                 raise
             except Exception as e:
                 from .errors import JSError
@@ -1103,9 +1102,8 @@ class Context:
                 compiler = Compiler()
                 bytecode_module = compiler.compile(ast)
 
-                vm = ctx._nested_vm()
-                return vm.run(bytecode_module)
-            except (TimeLimitError, MemoryLimitError):
+                return ctx._run_nested(bytecode_module)
+            except (TimeLimitError, MemoryLimitError, RecursionError):
                 raise
             except Exception as e:
                 from .errors import JSError
@@ -1232,22 +1230,35 @@ class Context:
         self._current_vm = vm
         try:
             result = vm.run(compiled)
+        except RecursionError:
+            # Deep native recursion (callbacks, accessors, nested eval): report it
+            # as the engine's own stack limit instead of a host error
+            raise MemoryLimitError("Maximum call stack size exceeded")
         finally:
             self._current_vm = None
 
         return self._to_python(result)
 
-    def _nested_vm(self) -> VM:
-        """Create a VM for eval()/Function() code run from inside a running script.
+    def _run_nested(self, compiled) -> JSValue:
+        """Run eval()/Function() code from inside a running script.
 
-        It shares the globals and keeps the deadline of the evaluation that is
-        in progress, so nested code cannot restart the clock.
+        The nested VM shares the globals, keeps the deadline of the evaluation
+        in progress and is charged for the stack the outer VMs already use, so
+        nested code can neither restart the clock nor escape the memory limit.
         """
+        outer = self._current_vm
         vm = VM(self.memory_limit, self.time_limit)
         vm.globals = self._globals
-        if self._current_vm is not None:
-            vm.start_time = self._current_vm.start_time
-        return vm
+        if outer is not None:
+            vm.start_time = outer.start_time
+            vm.memory_base = (
+                outer.memory_base + len(outer.stack) * 100 + len(outer.call_stack) * 200
+            )
+        self._current_vm = vm
+        try:
+            return vm.run(compiled)
+        finally:
+            self._current_vm = outer
 
     def _call_function(self, func: JSFunction, args: list) -> Any:
         """Call a JavaScript function with the given arguments.
